@@ -188,10 +188,18 @@ fn fill_thread_stack(
     thread.stack.memory.rva = buffer.position() as u32;
 
     if let Ok((valid_stack_ptr, stack_len)) = dumper.get_stack_info(stack_ptr) {
-        let stack_len = if let MaxStackLen::Len(max_stack_len) = max_stack_len {
-            min(stack_len, max_stack_len)
-        } else {
-            stack_len
+        let (valid_stack_ptr, stack_len) = match max_stack_len {
+            MaxStackLen::Len(max_stack_len) if stack_len > max_stack_len => {
+                // Skip whole chunks of length max_stack_len that lie below the stack pointer, so
+                // that the part we keep contains the stack pointer.
+                let mut start = valid_stack_ptr;
+                while start + max_stack_len <= stack_ptr {
+                    start += max_stack_len;
+                }
+                let remaining = stack_len - (start - valid_stack_ptr);
+                (start, min(remaining, max_stack_len))
+            }
+            _ => (valid_stack_ptr, stack_len),
         };
 
         let mut stack_bytes = PtraceDumper::copy_from_process(
